@@ -1320,6 +1320,9 @@ class Builtins(OpsMixin, LoopsMixin):
             if c is not None:
                 yield from ex.apply_contract(p, c, [v] + list(args), {}, node)
                 return
+        if name == "join":
+            yield p, VStr(V.fresh("joined", StrS))        # opaque text (version strings for messages)
+            return
         if name == "count":
             raise Unsupported("str.count")
         raise Unsupported("str.%s at line %s" % (name, getattr(node, "lineno", "?")))
